@@ -58,7 +58,11 @@ type nilSite struct {
 // nilDerefSites: dereferences (field address, method call with pointer receiver that derefs, index) of a value
 // loaded from an optional child field, with no dominating nil test of that field.
 func nilDerefSites(c *Ctx, scope map[*ssa.Function]bool) []nilSite {
-	opt := optionalChildFields(c)
+	return nilDerefSitesOf(c, scope, optionalChildFields(c))
+}
+
+// nilDerefSitesOf: the same over a given set of optional pointer fields.
+func nilDerefSitesOf(c *Ctx, scope map[*ssa.Function]bool, opt map[*types.Var]bool) []nilSite {
 	var out []nilSite
 	var fns []*ssa.Function
 	for f := range scope {
@@ -1248,4 +1252,64 @@ func resultNilTested(call *ssa.Call) bool {
 		}
 	}
 	return false
+}
+
+// codecOptionalFields: pointer-to-struct fields of the struct types of packages avc, hevc and sei that some function of
+// the library stores under a condition only (the parsers fill VUI, HRD parameters, extensions, … only when the stream
+// signals them): such a field is nil for streams without the feature.
+func codecOptionalFields(c *Ctx) map[*types.Var]bool {
+	out := map[*types.Var]bool{}
+	for fv, stores := range c.fieldStores() {
+		if fv.Pkg() == nil {
+			continue
+		}
+		switch fv.Pkg().Name() {
+		case "avc", "hevc", "sei":
+		default:
+			continue
+		}
+		pt, ok := fv.Type().Underlying().(*types.Pointer)
+		if !ok {
+			continue
+		}
+		if _, isStruct := pt.Elem().Underlying().(*types.Struct); !isStruct {
+			continue
+		}
+		for _, st := range stores {
+			// stored in a block that does not dominate every return: conditional
+			f := st.Parent()
+			cond := false
+			for _, b := range f.Blocks {
+				if _, isRet := b.Instrs[len(b.Instrs)-1].(*ssa.Return); isRet && !st.Block().Dominates(b) && !blockRejects(b) {
+					cond = true
+				}
+			}
+			if cond {
+				out[fv] = true
+			}
+		}
+	}
+	return out
+}
+
+// ruleGNILCodec (G-NIL, codec structures): a pointer field of an avc/hevc/sei structure that the parsers fill only when
+// the stream signals the feature is dereferenced only after a nil test of that field (or a fresh store to it).
+func ruleGNILCodec(c *Ctx, r *Report, scope map[*ssa.Function]bool) int {
+	opt := codecOptionalFields(c)
+	sites := nilDerefSitesOf(c, scope, opt)
+	seen := map[string]bool{}
+	for _, s := range sites {
+		key := SSAFuncName(s.f) + ":" + s.path
+		if seen[key] {
+			continue
+		}
+		seen[key] = true
+		if why := callersGuard(c, s); why != "" {
+			r.OK("G-NIL", key, c.Pos(s.ins.Pos()), why)
+			continue
+		}
+		r.Bad("G-NIL", key, c.Pos(s.ins.Pos()), s.path+" is nil for a stream that does not signal the feature, and is dereferenced here with no dominating nil test: nil pointer dereference")
+	}
+	r.OK("G-NIL", "scope:codec", "", fmt.Sprintf("%d optional pointer fields of the codec structures examined", len(opt)))
+	return len(opt)
 }
